@@ -51,3 +51,64 @@ Proof. exact bstore_offset_in. Qed.
 Theorem offset_bits_in_container : forall s off size,
   bits_in s -> 0 <= off -> 0 <= size -> bits_in (get_offset s off size).
 Proof. exact get_offset_bits_in. Qed.
+
+(* ---------- prefix stability (proved in View/Stable.v) ---------- *)
+Require Import EmbossV.View.Stable.
+
+(* Anything a view reports as known on a prefix of a message keeps its value when more bytes
+   arrive — hereditarily for nested views — for every module in the well-formed class wf_stable
+   (no array fields, no Null byte order, static scalar sizes as the compiler enforces, no
+   parameterised nested structures, aliases of scalars), every structure, parameters, nesting
+   depth, prefix and extension. *)
+Theorem prefix_stable_partial : forall m,
+  wf_stable m = true ->
+  forall d ps fuel bytes extra, In d m -> prefix_stable_at m d ps fuel bytes extra.
+Proof. exact Stable.prefix_stable_partial. Qed.
+Print Assumptions prefix_stable_partial.
+
+Theorem prefix_stable_top : forall m d ps fuel bytes extra,
+  wf_stable m = true -> In d m ->
+  let r := eval_struct m bytes fuel d ps true (root bytes) in
+  let r' := eval_struct m (bytes ++ extra) fuel d ps true (root (bytes ++ extra)) in
+  (fr_ok r = true -> fr_ok r' = true) /\
+  (fr_scomplete r = true -> fr_scomplete r' = true) /\
+  (forall z, fr_ssize r = Some z -> fr_ssize r' = Some z) /\
+  (forall i f, nth_error (fr_sub r) i = Some (Some f) ->
+     exists f', nth_error (fr_sub r') i = Some (Some f') /\
+       (forall b, fr_has f = Some b -> fr_has f' = Some b) /\
+       (fr_ok f = true -> fr_ok f' = true /\ fr_val f' = fr_val f) /\
+       fle f f').
+Proof. exact Stable.prefix_stable_top. Qed.
+
+(* The unrestricted statement is false of the faithful model; both witnesses are genuine defects
+   of the generated code / runtime (findings F9 and null-byte-order-short-buffer). *)
+Theorem prefix_stable_refuted_array :
+  exists m d ps fuel bytes extra,
+    In d m /\
+    let r := eval_struct m bytes fuel d ps true (root bytes) in
+    let r' := eval_struct m (bytes ++ extra) fuel d ps true (root (bytes ++ extra)) in
+    (exists f f', nth_error (fr_sub r) 1 = Some (Some f) /\ nth_error (fr_sub r') 1 = Some (Some f') /\
+                  fr_has f = Some true /\ fr_has f' = Some true /\
+                  fr_ok f = true /\ fr_ok f' = true /\
+                  fr_scomplete f = true /\
+                  fr_ssize f = Some 1 /\ fr_ssize f' = Some 3) /\
+    nth_error (run_view m 0 ps bytes fuel) 10 = Some 1 /\
+    nth_error (run_view m 0 ps (bytes ++ extra) fuel) 10 = Some 3 /\
+    ~ prefix_stable_at m d ps fuel bytes extra.
+Proof. exact Stable.prefix_stable_refuted_array. Qed.
+
+Theorem prefix_stable_refuted_null_order :
+  exists m d ps fuel bytes extra,
+    In d m /\
+    let r := eval_struct m bytes fuel d ps true (root bytes) in
+    let r' := eval_struct m (bytes ++ extra) fuel d ps true (root (bytes ++ extra)) in
+    (exists f f', nth_error (fr_sub r) 1 = Some (Some f) /\ nth_error (fr_sub r') 1 = Some (Some f') /\
+                  fr_has f = Some true /\ fr_ok f = true /\ fr_ok f' = true /\
+                  fr_val f = Some (VInt 0) /\ fr_val f' = Some (VInt 9)) /\
+    ~ prefix_stable_at m d ps fuel bytes extra.
+Proof. exact Stable.prefix_stable_refuted_null_order. Qed.
+
+(* the class wf_stable is inhabited by a module with a conditional field, a dynamic offset, a nested
+   structure, a bits block with an alias, a virtual field and a [requires] *)
+Example wf_stable_inhabited : wf_stable m_ex = true.
+Proof. exact Stable.wf_stable_example. Qed.
